@@ -115,7 +115,7 @@ impl RetransEntry {
 //@+     r.is_err() ==> final(self).counter == old(self).counter && r.unwrap_err().code is TxTimeout,
 //@+     final(self).msg_ctr == old(self).msg_ctr, final(self).base_delay_interval_ms == old(self).base_delay_interval_ms,
 
-//@fn RetransEntry::backoff_ms ret=r twin=c09_backoff_exact_formula
+//@fn RetransEntry::backoff_ms ret=r
 //@+ requires counter <= 6,   // horizon: MRP_MAX_TRANSMISSIONS = 5 attempts (+1); the proof of "no u64 overflow" is for this range
 //@+ ensures r as int == backoff(base_interval_ms as int, counter as int, jitter_rand as int),
 //@at after "let mut delay = base_interval_ms as u64 * MRP_BACKOFF_MARGIN.0 / MRP_BACKOFF_MARGIN.1;"
